@@ -181,7 +181,95 @@ func exeFor(j Job) string {
 	if j.S["binary"] == "race" {
 		return filepath.Join(filepath.Dir(self), "vmc-race")
 	}
+	if coverDir != "" {
+		return filepath.Join(filepath.Dir(self), "vmc-cover")
+	}
 	return self
+}
+
+// coverDir: when set (VERIF_COVERDIR), plain-binary workers run the -cover build and
+// write their counters there; the driver reports statement coverage of the property's
+// anchored files in the evidence (a vacuity alarm, not an oracle).
+var coverDir = os.Getenv("VERIF_COVERDIR")
+
+func statementCoverage(prop string) map[string]any {
+	if coverDir == "" {
+		return nil
+	}
+	out := filepath.Join(coverDir, "cov.txt")
+	cmd := exec.Command("go", "tool", "covdata", "textfmt", "-i="+coverDir, "-o="+out)
+	if b, err := cmd.CombinedOutput(); err != nil {
+		return map[string]any{"error": fmt.Sprintf("%v: %s", err, clip(string(b), 300))}
+	}
+	data, err := os.ReadFile(out)
+	if err != nil {
+		return map[string]any{"error": err.Error()}
+	}
+	type agg struct{ total, covered int }
+	files := map[string]*agg{}
+	seen := map[string]int{} // block -> max count
+	stm := map[string]int{}
+	for _, line := range strings.Split(string(data), "\n") {
+		// file:sl.sc,el.ec numStmts count
+		parts := strings.Fields(line)
+		if len(parts) != 3 || !strings.Contains(parts[0], ":") {
+			continue
+		}
+		n, _ := strconv.Atoi(parts[1])
+		c, _ := strconv.Atoi(parts[2])
+		stm[parts[0]] = n
+		if c > seen[parts[0]] {
+			seen[parts[0]] = c
+		} else if _, ok := seen[parts[0]]; !ok {
+			seen[parts[0]] = 0
+		}
+	}
+	for blk, n := range stm {
+		f := blk[:strings.LastIndex(blk, ":")]
+		a := files[f]
+		if a == nil {
+			a = &agg{}
+			files[f] = a
+		}
+		a.total += n
+		if seen[blk] > 0 {
+			a.covered += n
+		}
+	}
+	// anchored files of this property
+	anchors := map[string]bool{}
+	if pb, err := os.ReadFile(filepath.Join(verifDir, "properties.jsonl")); err == nil {
+		for _, l := range strings.Split(string(pb), "\n") {
+			var p struct {
+				ID      string `json:"id"`
+				Anchors struct {
+					Files []string `json:"files"`
+				} `json:"anchors"`
+			}
+			if json.Unmarshal([]byte(l), &p) == nil && p.ID == prop {
+				for _, f := range p.Anchors.Files {
+					anchors[f] = true
+				}
+			}
+		}
+	}
+	res := map[string]any{}
+	tot, cov := 0, 0
+	for f, a := range files {
+		const pfx = "github.com/emirpasic/gods/v2/"
+		if !strings.HasPrefix(f, pfx) {
+			continue
+		}
+		rel := strings.TrimPrefix(f, pfx)
+		if !anchors[rel] {
+			continue
+		}
+		res[rel] = fmt.Sprintf("%d/%d statements (%.1f%%)", a.covered, a.total, 100*float64(a.covered)/float64(max(1, a.total)))
+		tot += a.total
+		cov += a.covered
+	}
+	res["_anchored_files_total"] = fmt.Sprintf("%d/%d statements (%.1f%%)", cov, tot, 100*float64(cov)/float64(max(1, tot)))
+	return res
 }
 
 func runWorker(j Job, journal bool, tag string) runOut {
@@ -199,6 +287,9 @@ func runWorker(j Job, journal bool, tag string) runOut {
 	cmd.Stderr = &errb
 	cmd.Stdout = &errb
 	cmd.Env = append(os.Environ(), "GOMAXPROCS="+strconv.Itoa(j.p("gomaxprocs", 2)), "GOTRACEBACK=single")
+	if coverDir != "" && j.S["binary"] != "race" {
+		cmd.Env = append(cmd.Env, "GOCOVERDIR="+coverDir)
+	}
 	if j.S["binary"] == "race" {
 		cmd.Env = append(cmd.Env, "GORACE=halt_on_error=0 history_size=4")
 	}
@@ -470,6 +561,9 @@ func checkMain(prop, tier string) int {
 			"tool_errors":                   toolErrors,
 			"go":                            runtime.Version(),
 		},
+	}
+	if sc := statementCoverage(prop); sc != nil {
+		ev["coverage"].(map[string]any)["statement_coverage_of_anchored_files"] = sc
 	}
 	os.MkdirAll(filepath.Join(verifDir, "evidence"), 0o755)
 	b, _ := json.MarshalIndent(ev, "", " ")
